@@ -76,8 +76,8 @@ def remap(op, off):
 class C12(Scenario):
     pid = "C12"
     arms = {
-        "quick": [("uniform", 4), ("digit-boundary", 4), ("multi-mesh", 3), ("salt", 4), ("warm", 2), ("faulty-noise", 2), ("demo", 1)],
-        "thorough": [("uniform", 4), ("digit-boundary", 4), ("multi-mesh", 3), ("salt", 4), ("warm", 2), ("faulty-noise", 3), ("demo", 1), ("deep", 2)],
+        "quick": [("uniform", 4), ("digit-boundary", 4), ("multi-mesh", 3), ("salt", 4), ("warm", 2), ("shared-measure", 3), ("faulty-noise", 2), ("demo", 1)],
+        "thorough": [("uniform", 4), ("digit-boundary", 4), ("multi-mesh", 3), ("salt", 4), ("warm", 2), ("shared-measure", 3), ("faulty-noise", 3), ("demo", 1), ("deep", 2)],
     }
     runs = {"quick": 1500, "thorough": 40000}
     wall = {"quick": 75, "thorough": 1300}
@@ -110,6 +110,11 @@ class C12(Scenario):
         elif arm == "salt":
             fam["shape_derivative"] = 0.5
             fam["flat_form"] = 0.1
+        elif arm == "shared-measure":
+            # program and noise both integrate with the module-level measures; the noise is
+            # algorithm-heavy (earlier, unrelated work in the same process)
+            cfg["global_measure_p"] = 0.9
+            cfg["n_forms"] = rng.randint(1, 2)
         elif arm == "deep":
             cfg["depth"] = rng.choice([4, 5])
             cfg["n_forms"] = rng.randint(2, 4)
@@ -154,14 +159,14 @@ class C12(Scenario):
         n_pert = rng.choice([1, 2, 2, 3]) if arm not in ("digit-boundary", "multi-mesh") else rng.choice([1, 2])
         nodes = [{"salt": 0, "init": []}]
         for i in range(n_pert):
-            if arm in ("digit-boundary", "multi-mesh", "warm"):
+            if arm in ("digit-boundary", "multi-mesh", "warm", "shared-measure"):
                 salt = 0
             elif arm == "salt":
                 salt = rng.choice(SALTS[1:])
             else:
                 salt = rng.choice(SALTS)
             init = []
-            if arm in ("digit-boundary", "multi-mesh") or (arm not in ("salt", "warm") and rng.random() < 0.6):
+            if arm in ("digit-boundary", "multi-mesh") or (arm not in ("salt", "warm", "shared-measure") and rng.random() < 0.6):
                 kinds = COUNTERS if arm != "multi-mesh" else ["Mesh", "Mesh", "Constant", "Coefficient"]
                 for kind in sorted(set(rng.sample(kinds, rng.randint(1, len(set(kinds)))))):
                     v = rng.choice(BOUNDARY[:8]) if rng.random() < 0.8 else rng.choice(BOUNDARY)
@@ -171,7 +176,7 @@ class C12(Scenario):
 
         # ---- noise: prelude + interleaved, per perturbed node
         noise_progs = {}
-        noise_w = {"uniform": 0.5, "warm": 1.0, "faulty-noise": 1.0, "deep": 0.4, "salt": 0.2, "demo": 0.5}.get(arm, 0.25)
+        noise_w = {"uniform": 0.5, "warm": 1.0, "faulty-noise": 1.0, "deep": 0.4, "salt": 0.2, "demo": 0.5, "shared-measure": 1.0}.get(arm, 0.25)
         npos = len([u for u in units if u["k"] == "P"])
         inserts = []  # (position among P units, unit)
         for ni in range(1, len(nodes)):
@@ -183,7 +188,15 @@ class C12(Scenario):
                 {
                     "kind": "program",
                     "seed": rng.getrandbits(40),
-                    "cfg": {"base": base, "n_forms": rng.randint(1, 2), "depth": 2, "keep_failed": True, "n_derived": rng.randint(0, 3), "families": {"flat": True}},
+                    "cfg": {
+                        "base": base,
+                        "n_forms": rng.randint(1, 2),
+                        "depth": 2,
+                        "keep_failed": True,
+                        "n_derived": rng.randint(0, 3) if arm != "shared-measure" else rng.randint(3, 7),
+                        "global_measure_p": 0.9 if arm == "shared-measure" else 0.35,
+                        "families": {"flat": True},
+                    },
                 },
             )
             qops = list(Q["ops"])
